@@ -464,6 +464,7 @@ def rule_R5(ck):
         stmts = [sh.mk(T("Label"), None, None, "early", False),
                  sh.mk(T("Instruction"), None, None, sh.symbol(".extern"), [sh.symbol("all")]),
                  sh.mk(T("Label"), None, None, "late", False),
+                 sh.mk(T("Label"), None, None, "1", False),
                  sh.mk(T("Assignment"), None, None, sh.symbol("latec"), sh.xexpr(5, "5"), False)]
         block = sh.mk(T("CodeBlock"), None, None, stmts)
         f = Rec(ClassVal("FileStub"))
@@ -479,6 +480,9 @@ def rule_R5(ck):
     ck.instance(("extern-all-route",), {"exported after compiling [early:, .extern all, late:, latec = 5]": repr(ps[0].value)[:160]}, fn=where)
     if len(ps) != 1 or ps[0].kind != "return":
         return ck.incomplete(where, "compile_file on [early:, .extern all, late:, latec = 5]", ps)
+    if "1" in ps[0].value:
+        ck.violation("compiler::Compiler.compile_label", f"a file 'early: / .extern all / late: / 1: / latec = 5' exports {ps[0].value}: the local label '1' belongs to the scope between two ordinary labels "
+                                                          "and is never visible to other files, '.extern all' or not", construct="extern all exports a local label")
     missing = [n for n in ("early", "late", "latec") if n not in ps[0].value]
     if missing:
         ck.violation(where, f"a file 'early: / .extern all / late: / latec = 5' exports {ps[0].value}; {missing} missing: '.extern all' must export the names defined before it AND switch exporting on for every "
